@@ -785,6 +785,9 @@ def work_types(args):
         r = run_cases(chibicc, os.path.join(wd, "b%d" % bno[0]), "b", [c for c, _ in batch])
         bno[0] += 1
         summ["refrej"] += len(r["refrej"])
+        for i in r["refrej"][:3]:
+            if len(summ["dis_samples"]) < 6:
+                summ["dis_samples"].append(("gcc rejects", M.decl(batch[i][0].ty, "x"), batch[i][0].text))
         summ["dis"] += len(r["dis"])
         for i in list(r["dis"])[:2]:
             if len(summ["dis_samples"]) < 3:
